@@ -1,5 +1,6 @@
 """C15 — Cross-channel merge keeps every string once, newest wins, order stable."""
 import itertools
+import json
 
 from lib import common as C
 from lib import pool
@@ -45,6 +46,21 @@ THEOREMS = [
     (M, "C15.merge_reparses_properties_partial", "RE-PARSE (.properties, every version printed from safe records with distinct keys): merge_channels succeeds and "
         "PropertiesParser.walk parses the merged text without junk into entities whose keys are exactly the union of the versions' keys, each once, "
         "every key carrying the record of the newest version that has it"),
+    (M, "C15.merge_result_history_free", "HISTORY: in every state a process reaches (merges, compare, lint, serialize, getParser, readUnicode, walk, "
+        "matcher / configuration / checker operations in any order) the merge step of the state machine returns Merge.mergeTexts of THIS call's "
+        "arguments (corollary of C18.out_independent_all)"),
+    (M, "C15.merge_result_state_free", "… and in fact in EVERY state, reachable or not: two states give the same merge result, the function of the arguments"),
+    (M, "C15.merge_named_history_free", "merge_channels(name, resources) — parser lookup, refusal, merge on the SHARED parser instance — returns "
+        "Merge.mergeChannels name resources in every state of a process without parser plugins"),
+    (M, "C15.merge_history_free", "whole histories: for ANY sequence interleaving merges with the other operations of the tools, from any state, the result "
+        "of every merge step is the function of that step's own arguments"),
+    (M, "C15.refusal_history_free", "in every state MergeNotSupportedError is raised exactly when no parser pattern matches THIS name, whatever names "
+        "were looked up (refused or accepted) before"),
+    (M, "C15.lookup_leaves_no_trace", "getParser(path), found or not, and a refused merge_channels leave the process state as it was (no memo of names or extensions)"),
+    (M, "C15.merge_single_in_any_history", "merging a single version returns the input in the middle of any history (hypotheses of merge_single_total only)"),
+    (M, "C15.merge_identical_in_any_history", "merging n+1 identical junk-free versions returns the input in the middle of any history"),
+    (M, "C15.history_reachable", "non-vacuity of the reachable form: every history of merges and other operations (no add_rules / add_paths on a live "
+        "configuration) from a fresh interpreter ends in a state C18's theorems apply to, with the entry points unchanged"),
     (M, "C15.merge_reparses_ini_partial", "RE-PARSE (.ini, every version `[sec]` + printed safe ini records with the same section, distinct keys none equal to the "
         "section name): IniParser.walk parses the merged text without junk into the section and entities with exactly the union of keys, each once, newest record"),
 ]
@@ -61,6 +77,9 @@ PARTIAL = [
     "(each key once, first position, last text) — the two clauses 'every key once' and 'a single version is returned' contradict each other on such a "
     "file, so it is outside the property's domain; probed on the real code (probe.dupkey.*) and tied by the dupkey correspondence stream",
     "a DTD that starts with a byte-order mark is excluded from merge_single_total (the DTD walk drops the mark; witness in Props/C15.lean)",
+    "history theorems: the state machine holds the Contexts of the five regex-format singletons; the Fluent / Android singletons are external parsers "
+    "(mergeNamed answers Err.external and keeps the state) — their merges inside process histories are judged by the oracle on the real code and tied at "
+    "entry level (merge.ents); NoPlugins (no third-party parser entry point) is a hypothesis of the by-name theorems, with a negation witness",
 ]
 LEVEL_TEXT = ("Lean 4 theorems over an executable transliteration of merge_channels/merge_resources/merge_two/prune/getParser: for ALL "
               "lists of versions the merged dict has every non-whitespace key of every version exactly once, with the entry of the newest "
@@ -76,6 +95,8 @@ TRUSTED = [
     "hand-written model CLModel/Merge/Channels.lean of merge.py and parser.getParser (tied by the merge.* correspondence)",
     "Python object identity (Whitespace instances as dict keys, Junk keys with the process-wide counter) modelled as (version, index)",
     "parser models CLModel/Parser/{Base,Formats}.lean (C01) for the text-level operations",
+    "the state machine CLModel/History/Machine.lean (C18) + CLModel/Merge/History.lean as the list of ALL mutable state a merge can read: tied by the "
+    "c15.hist correspondence (whole histories in one fresh interpreter vs MergeH.run) and by C18's state digests",
 ]
 ASSUMPTIONS = [
     "versions are newline-terminated and junk-free (as the property states); other inputs run as correspondence only",
@@ -839,14 +860,25 @@ def run(ctx):
                 "re-value / reorder / attached-comment / standalone-comment / blank-line edits (chain order, reversed and shuffled), plus "
                 "identical versions x2..4; every version is newline-terminated and checked junk-free with the real parser. "
                 "non-trivial = at least two versions and the merge contains a key the newest version lacks or a re-valued key; "
-                "distinct = distinct (format, merged text)")
+                "distinct = distinct (format, merged text).  PROCESS HISTORIES (round 5): sequences of operations in ONE fresh interpreter each — "
+                "merge_channels of all formats (single / identical / several versions, same-length siblings, the resource the previous merge ended with "
+                "first) interleaved with the other users of the shared parser singletons (getParser(name).readUnicode / readFile / readContents + walk / "
+                "parse / iteration / abandoned walk / nothing, ContentComparer.compare, L10nLinter.lint_file, serialize) on unrelated files, on the "
+                "versions themselves and on files with junk, and with hasParser / getParser / compare / merge_channels on names that have NO parser "
+                "(layout/main.xml, values.xml, foo.properties.orig, README.txt …) before and after supported merges of the same extension; directed "
+                "skeletons (merge, other user, merge starting with the last resource) per format and interleaver + random segments, riffled; every merge "
+                "step judged by the same oracle from ITS arguments alone, compared with a parser instance created for the call, a sample re-run alone "
+                "in a fresh interpreter, and the whole history run through MergeH.run (c15.hist)")
     total_adj = 0
     bad_wrappers = 0
     # the formats are independent of each other: three at a time (results are merged in the order of FORMATS)
     from concurrent.futures import ThreadPoolExecutor
-    with ThreadPoolExecutor(3) as ex:
+    with ThreadPoolExecutor(1) as hx, ThreadPoolExecutor(3) as ex:
+        hist = hx.submit(run_histories, ctx)          # the process histories run beside the per-call streams
         parts = list(ex.map(lambda f: run_format(ctx, f), FORMATS))
         dups = list(ex.map(lambda f: run_dupkeys(ctx, f), FORMATS))
+        hist = hist.result()
+    out.merge(hist)
     for o in dups:
         out.merge(o)
     for o, a, b in parts:
@@ -1046,6 +1078,496 @@ def run_dupkeys(ctx, f):
     return out
 
 
+# ------------------------------------------------------------------ round 5: process histories
+# merge_channels owns no parser: it loads every version into the process-wide instance `getParser(name)` returns, the
+# object compare / lint / serialize and every direct `getParser(name).readFile/readUnicode/readContents` use.  The unit of
+# generation here is a HISTORY: a sequence of operations executed one after another in ONE fresh interpreter, merges of
+# every format (single / identical / several versions) interleaved with the other users of the singletons and with
+# look-ups of names that have no parser.  Oracle by construction, per merge step (what the property promises for a merge
+# depends on that call's arguments only).
+HNAMES = {"properties": ["browser/a.properties", "a.properties", "x.orig.properties"], "dtd": ["a.dtd", "x/y.dtd"],
+          "ini": ["a.ini", "dir.inc/b.ini"], "inc": ["a.inc", "defines.inc"], "po": ["a.po", "de/a.pot"],
+          "ftl": ["a.ftl", "browser/x.po.ftl"],
+          "android": ["res/values/strings.xml", "strings.xml", "values-de/strings-extra.xml", "l/mystrings-x.xml"]}
+# names WITHOUT a parser that look like the format's (same extension, a supported suffix followed by another one)
+LOOKALIKES = {"properties": ["foo.properties.orig", "a.properties~", "properties"], "dtd": ["a.dtdx", "a.dtd.bak"],
+              "ini": ["a.ini.in", "a.inix"], "inc": ["a.inc.in", "a.incl"], "po": ["a.po.x", "a.pox", "a.potx"],
+              "ftl": ["a.ftl~", "a.ftlx"],
+              "android": ["layout/main.xml", "values.xml", "string.xml", "res/values/colors.xml", "AndroidManifest.xml"]}
+GENERIC_REFUSED = ["README.txt", "README", "a.json", "foo.unknown", "a.html"]
+# contents that are NOT versions of a merge (trailing junk / comment without newline / byte-order mark): loaded by the
+# other users of the parser only
+JUNKY = {"properties": ["\ufeffa=1\nb=2\n", "a=1\n# trailing comment", "a=1\nzzz", "a=line\\\n"],
+         "dtd": ['\ufeff<!ENTITY a "x">\n<!ENTITY b "y">\n', '<!ENTITY a "x">\n<!-- trailing', '<!ENTITY a "x">\njunk <'],
+         "ini": ["[Strings]\na=1\n; trailing", "a=1\nzzz", "\ufeff[S]\na=1\n"],
+         "inc": ["#define a 1\n\n\n#define b 2\n#filter emptyLines\n", "#define a\n\n#filter emptyLines\n",
+                 "#filter emptyLines\n\n\n#define a 1\n#unfilter emptyLines\n\n\n"],
+         "po": ['msgid "a"\nmsgstr "b"\n\n# trailing', 'msgid "a"\nmsgstr "b"\n\njunk'],
+         "ftl": ["a = 1\n# trailing", "a = 1\njunk {", "\ufeffa = 1\n"],
+         "android": ['<?xml version="1.0" encoding="utf-8"?>\n<resources>\n  <string name="a">x</string>\n</resources>\n<!-- after -->']}
+H_MAX_VIOLATIONS = 40
+
+
+def _sibling(v):
+    """a value of the SAME LENGTH with other content (first ASCII letter replaced by its successor)"""
+    for i, c in enumerate(v):
+        if c.isascii() and c.isalpha() and c not in "zZ":
+            return v[:i] + chr(ord(c) + 1) + v[i + 1:]
+    return None
+
+
+def hformat(f):
+    """the format with same-length siblings of its first values appended (`sib`: value number -> sibling's number)"""
+    import copy
+    h = copy.copy(f)
+    h.values = list(f.values)
+    h.sib = {}
+    for i in range(min(3, len(f.values))):
+        s = _sibling(f.values[i])
+        if s is not None and s not in h.values:
+            h.sib[i] = len(h.values)
+            h.values.append(s)
+    return h
+
+
+def hformats():
+    """{class name: the history variant of the format} (deterministic)"""
+    return {type(f).__name__: hformat(f) for f in FORMATS}
+
+
+def samelen_variant(rng, h, items):
+    """the version with ONE value replaced by its same-length sibling (same byte length, other content), or None"""
+    n0 = len(h.values) - len(h.sib)
+
+    def base(vi):
+        return vi % len(h.values)
+    cand = [i for i, it in enumerate(items) if it[0] == "E" and base(it[2]) in h.sib]
+    if not cand:
+        return None
+    i = rng.choice(cand)
+    it = items[i]
+    out = list(items)
+    out[i] = (it[0], it[1], h.sib[base(it[2])], it[3], it[4])
+    assert n0 <= h.sib[base(it[2])]
+    return out
+
+
+def h_merge_step(h, name, versions):
+    return {"op": "merge", "name": name, "fmt": h.fmt, "tag": type(h).__name__, "texts": [h.render(v) for v in versions],
+            "versions": [list(v) for v in versions]}
+
+
+def h_refuse_step(name, text="a"):
+    return {"op": "merge", "name": name, "fmt": None, "texts": [text], "refused": True}
+
+
+def interleavers(rng, h, name, texts, every=False):
+    """the OTHER users of the shared parser of `name` (and of the parser table), as [(label, [steps])]; `texts` = contents
+    they load (unrelated files of the same format, the versions of neighbouring merges, files with junk)"""
+    t = lambda: rng.choice(texts)
+    fmt = h.fmt
+    out = []
+    for via in ("unicode", "file", "contents"):
+        for consume in ("walk", "parse", "iter", "none", "partial"):
+            out.append(("load.%s.%s" % (via, consume),
+                        [{"op": "load", "fmt": fmt, "name": name, "via": via, "consume": consume, "k": rng.randrange(1, 3), "text": t()}]))
+    # exception paths: a file that does not exist (readFile raises; inside compare the error is reported and swallowed)
+    out.append(("load.missing", [{"op": "load", "fmt": fmt, "name": name, "via": "missing", "consume": "none", "text": ""}]))
+    out.append(("compare.missing", [{"op": "compare", "fmt": fmt, "name": name, "ref": t(), "l10n": None}]))
+    out.append(("compare", [{"op": "compare", "fmt": fmt, "name": name, "ref": t(), "l10n": t()}]))
+    out.append(("lint", [{"op": "lint", "fmt": fmt, "name": name, "cur": t(), "ref": None}]))
+    out.append(("lint.ref", [{"op": "lint", "fmt": fmt, "name": name, "cur": t(), "ref": t()}]))
+    out.append(("serialize", [{"op": "serialize", "fmt": fmt, "name": name, "ref": t(), "old": t(), "new": []}]))
+    look = LOOKALIKES[fmt] + [rng.choice(GENERIC_REFUSED)]
+    out.append(("lookup.get", [{"op": "lookup", "names": rng.sample(look, min(3, len(look))) + [name], "how": "get"}]))
+    out.append(("lookup.has", [{"op": "lookup", "names": [name] + rng.sample(look, min(3, len(look))), "how": "has"}]))
+    out.append(("refuse", [h_refuse_step(rng.choice(LOOKALIKES[fmt]), t())]))
+    la = rng.choice(LOOKALIKES[fmt])
+    out.append(("compare.lookalike", [{"op": "compare", "fmt": fmt, "name": la, "ref": t(), "l10n": t(), "refused": True}]))
+    out.append(("load.lookalike", [{"op": "load", "fmt": fmt, "name": la, "via": "unicode", "consume": "walk", "text": t(), "refused": True}]))
+    return out
+
+
+def seg_pool(rng, h):
+    """versions of one file across channels (derived from each other, one same-length sibling), and unrelated files"""
+    a = base_version(h, rng, rng.randrange(1, 5))
+    pool = [a]
+    v = a
+    for _ in range(rng.randrange(2, 4)):
+        for _ in range(rng.randrange(1, 4)):
+            v = edit(h, rng, v)
+        if isinstance(h, AndroidRoot) and rng.random() < 0.5:
+            v = h.edit_root(rng, v)
+        pool.append(v)
+    s = samelen_variant(rng, h, a)
+    others = [base_version(h, rng, rng.randrange(1, 5)) for _ in range(2)]
+    return pool, s, others
+
+
+def directed_segments(rng, h, every):
+    """the skeletons of the class (contents from the generators): a merge, then ANOTHER user of the same parser, then a
+    merge that starts with the resource the first one ended with / a merge of the file the other user loaded / same-length
+    contents / look-ups of names without a parser BEFORE the merge of the same extension"""
+    pool, sib, others = seg_pool(rng, h)
+    a, b = pool[0], pool[1]
+    o = others[0]
+    name = rng.choice(HNAMES[h.fmt])
+    otext = [h.render(x) for x in others] + [rng.choice(JUNKY[h.fmt])]
+    inter = interleavers(rng, h, name, otext)
+    inter_o = interleavers(rng, h, name, [h.render(o)])
+    idx = list(range(len(inter)))
+    if not every:
+        idx = sorted(rng.sample(idx, 9))
+    segs = []
+    for i in idx:
+        lab, st = inter[i]
+        segs.append(("D1." + lab, [h_merge_step(h, name, [b, a])] + st + [h_merge_step(h, name, [a])]))
+        segs.append(("D2." + lab, [h_merge_step(h, name, [a])] + st + [h_merge_step(h, name, [a, b])]))
+        if every or rng.random() < 0.5:
+            segs.append(("D3." + lab, [h_merge_step(h, name, [a, a])] + st + [h_merge_step(h, name, [a, a, a])]))
+        if not inter_o[i][1][0].get("refused") and inter_o[i][1][0]["op"] != "lookup":
+            segs.append(("D4." + lab, inter_o[i][1] + [h_merge_step(h, name, [o])]))
+    if sib is not None:
+        segs.append(("D5.samelen", [h_merge_step(h, name, [a]), h_merge_step(h, name, [sib]), h_merge_step(h, name, [sib, a])]))
+        segs.append(("D5.samelen.load", [h_merge_step(h, name, [sib]), {"op": "load", "fmt": h.fmt, "name": name, "via": "contents",
+                                                                       "consume": "walk", "text": h.render(a)},
+                                         h_merge_step(h, name, [sib, a])]))
+    look = LOOKALIKES[h.fmt]
+    segs.append(("D6.lookup-first", [{"op": "lookup", "names": list(look), "how": rng.choice(["get", "has"])}]
+                 + [h_refuse_step(n) for n in rng.sample(look, 2)]
+                 + [h_merge_step(h, n, [a]) for n in HNAMES[h.fmt]] + [h_refuse_step(look[0])]))
+    segs.append(("D6.merge-first", [h_merge_step(h, n, [b]) for n in HNAMES[h.fmt]]
+                 + [h_refuse_step(n) for n in look] + [h_merge_step(h, HNAMES[h.fmt][0], [a, b])]))
+    return segs
+
+
+def random_segment(rng, h):
+    pool, sib, others = seg_pool(rng, h)
+    if sib is not None:
+        pool.append(sib)
+    name = rng.choice(HNAMES[h.fmt])
+    texts = [h.render(x) for x in others + pool] + [rng.choice(JUNKY[h.fmt])]
+    steps = []
+    last = None
+    for _ in range(rng.randrange(4, 10)):
+        if rng.random() < 0.5:
+            k = rng.choice([1, 1, 2, 2, 3])
+            if rng.random() < 0.15:
+                vs = [rng.choice(pool)] * rng.randrange(2, 4)
+            else:
+                vs = [rng.choice(pool) for _ in range(k)]
+            if last is not None and rng.random() < 0.4:
+                vs[0] = last            # starts with the resource the parser was handed last by a merge
+            if rng.random() < 0.2:
+                name = rng.choice(HNAMES[h.fmt])
+            steps.append(h_merge_step(h, name, vs))
+            last = vs[-1]
+        else:
+            steps += rng.choice(interleavers(rng, h, name, texts))[1]
+    return ("R." + type(h).__name__, steps)
+
+
+def gen_histories(ctx):
+    """[[step, ...]]: every inner list runs in ONE fresh interpreter"""
+    rng = ctx.rng("c15.hist")
+    hs = list(hformats().values())
+    segs = []
+    every = ctx.tier != "quick"
+    for h in hs:
+        for _ in range(1 if ctx.tier == "quick" else 3):
+            segs += directed_segments(rng, h, every)
+    for _ in range(ctx.n(300, 3000)):
+        segs.append(random_segment(rng, rng.choice(hs)))
+    rng.shuffle(segs)
+    nh = max(1, min(len(segs), ctx.n(28, 160)))
+    hists = [[] for _ in range(nh)]
+    for i, (lab, steps) in enumerate(segs):
+        for st in steps:
+            st = dict(st)
+            st["seg"] = "%d:%s" % (i, lab)
+            hists[i % nh].append(st)
+    # riffle: in some histories the steps of neighbouring segments alternate (other formats' parsers in between)
+    for hsteps in hists:
+        if rng.random() < 0.3 and len(hsteps) > 8:
+            k = len(hsteps) // 2
+            a, b = hsteps[:k], hsteps[k:]
+            mixed = []
+            while a or b:
+                src = a if (a and (not b or rng.random() < 0.5)) else b
+                mixed.append(src.pop(0))
+            hsteps[:] = mixed
+    return hists
+
+
+def wire_step(st):
+    return {k: v for k, v in st.items() if k not in ("versions", "tag", "seg", "refused")}
+
+
+def run_fresh(histories, timeout=60.0, jobs=14):
+    """impl_history(steps) for every history, EACH IN ITS OWN FRESH INTERPRETER (None: no answer within the deadline)"""
+    import os
+    from concurrent.futures import ThreadPoolExecutor
+
+    def one(steps):
+        w = pool.Worker()
+        try:
+            r = w.call([["impl.channels", "impl_history", [[wire_step(s) for s in steps]]]], timeout + 0.05 * len(steps))
+        finally:
+            w.close()
+        if r is None:
+            return None
+        r = r[0]
+        return r["r"] if "r" in r else [{"canon": "ADAPTER-EXC %s: %s" % (r.get("exc"), r.get("msg"))}] * len(steps)
+    if not histories:
+        return []
+    with ThreadPoolExecutor(min(jobs, os.cpu_count() or 4)) as ex:
+        return list(ex.map(one, histories))
+
+
+def describe_steps(items):
+    """impl_describe for [(step, result)] of supported merge steps (parsers created for the purpose, other interpreters)"""
+    byname = hformats()
+    args = [[st["fmt"], byname[st["tag"]].name, st["texts"], r.get("text")] for st, r in items]
+    return pool.pmap("impl.channels", "impl_describe", args, timeout=5.0)
+
+
+def judge_merge(st, r, d):
+    """(message or None, in the property's domain?) for one merge step of a history: `r` what the history's interpreter
+    returned, `d` = impl_describe of its arguments and result"""
+    canon = r.get("canon", "")
+    if st.get("refused"):
+        if canon != "err MergeNotSupportedError":
+            return "unsupported file type %r is not refused (%s)" % (st["name"], canon[:60]), True
+        return None, True
+    f = hformats()[st["tag"]]
+    vs = [[tuple(it) for it in v] for v in st["versions"]]
+    if "r" not in d or "versions" not in d["r"]:
+        return None, False
+    if not all(version_ok(f, items, desc) for items, desc in zip(vs, d["r"]["versions"])):
+        return None, False
+    if canon.startswith("ok "):
+        rr = {"r": d["r"]}
+    elif canon.startswith("err "):
+        rr = {"r": dict(d["r"], canon=canon)}
+    else:
+        rr = {"exc": canon.split(":")[0].replace("exc ", ""), "msg": canon}
+    return oracle(f, vs, st["texts"], rr), True
+
+
+def shrink_history(steps, idx, failing, budget=14):
+    """a shorter history whose LAST step still fails the oracle: the segment of the failing step alone, then single
+    steps dropped greedily; every candidate runs in its own fresh interpreter"""
+    def fails(cand):
+        res = run_fresh([cand])[0]
+        if res is None or len(res) != len(cand):
+            return False
+        st, r = cand[-1], res[-1]
+        d = describe_steps([(st, r)])[0] if not st.get("refused") else {}
+        return judge_merge(st, r, d)[0] is not None
+    best = steps[:idx + 1]
+    seg = [s for s in best if s.get("seg") == failing.get("seg")]
+    used = 0
+    if len(seg) < len(best) and seg and seg[-1] is best[-1]:
+        used += 1
+        if fails(seg):
+            best = seg
+    i = len(best) - 2
+    while i >= 0 and used < budget and len(best) <= 12:
+        cand = best[:i] + best[i + 1:]
+        used += 1
+        if fails(cand):
+            best = cand
+        i -= 1
+    return best
+
+
+def hist_model_line(steps):
+    """(`c15.hist` line, [(step index, sub index | None)] per model step whose output is compared)"""
+    toks = ["c15.hist", "P", "0"]
+    where = []
+    for i, st in enumerate(steps):
+        k = st["op"]
+        fmt = st.get("fmt")
+        if k == "merge":
+            toks += ["mchan", C.enc(st["name"]), str(len(st["texts"]))] + [C.enc(t) for t in st["texts"]]
+            where.append((i, None))
+            continue
+        if k == "lookup":
+            for j, n in enumerate(st["names"]):
+                toks += ["getparser", C.enc(n)]
+                where.append((i, j))
+            continue
+        if fmt not in TEXT_FMTS or st.get("refused"):
+            continue
+        groups = []
+        if k == "load" and st.get("via") == "missing":
+            pass                                    # readFile raised before readUnicode: the parser keeps its Context
+        elif k == "compare" and st.get("l10n") is None:
+            groups.append(["parse", fmt, C.enc(st["ref"])])
+        elif k == "load":
+            groups.append(["read", fmt, C.enc(st["text"])])
+            if st.get("consume") in ("walk", "parse", "iter"):
+                groups.append(["rewalk", fmt])
+        elif k == "compare":
+            if fmt in ("ini", "inc"):
+                groups.append(["compare", fmt, C.enc(st["ref"]), C.enc(st["l10n"])])
+            else:
+                groups += [["parse", fmt, C.enc(st["ref"])], ["parse", fmt, C.enc(st["l10n"])]]
+        elif k == "lint":
+            if fmt in ("ini", "inc"):
+                groups.append(["lint", fmt, "-" if st.get("ref") is None else C.enc(st["ref"]), C.enc(st["cur"])])
+            else:
+                groups += ([["parse", fmt, C.enc(st["ref"])]] if st.get("ref") is not None else []) + [["parse", fmt, C.enc(st["cur"])]]
+        elif k == "serialize":
+            groups += [["parse", fmt, C.enc(st["ref"])], ["parse", fmt, C.enc(st["old"])]]
+        for g in groups:
+            toks += g
+            where.append(None)
+    return " ".join(toks), where
+
+
+def run_histories(ctx):
+    out = Outcome()
+    hists = gen_histories(ctx)
+    rng = ctx.rng("c15.hist.sample")
+    merges = [(hi, si) for hi, h in enumerate(hists) for si, st in enumerate(h) if st["op"] == "merge"]
+    # the same merge step alone in a fresh interpreter (differential), for a sample
+    sample = rng.sample(merges, min(len(merges), ctx.n(40, 500)))
+    singles = [[dict(hists[hi][si], fresh=False)] for hi, si in sample]
+    res = run_fresh(hists + singles)
+    hres, sres = res[:len(hists)], res[len(hists):]
+    out.count("history.histories", len(hists))
+    out.count("history.steps", sum(len(h) for h in hists))
+    for h in hists:
+        for st in h:
+            out.count("history.op.%s" % (st["op"] if not st.get("refused") else st["op"] + ".noparser"))
+    # histories that did not answer: retried once, then reported as they are
+    for hi, r in enumerate(hres):
+        if r is None:
+            r = run_fresh([hists[hi]], timeout=240.0)[0]
+            hres[hi] = r
+            if r is None:
+                # which operation does not return?  shortest prefix without an answer (every probe in a fresh interpreter)
+                out.count("history.no_answer")
+                lo, hi_ = 0, len(hists[hi])
+                while lo + 1 < hi_:
+                    mid = (lo + hi_) // 2
+                    if run_fresh([hists[hi][:mid]], timeout=30.0)[0] is None:
+                        hi_ = mid
+                    else:
+                        lo = mid
+                st = hists[hi][hi_ - 1]
+                if st["op"] == "merge" and not st.get("refused"):
+                    out.violations.append({"what": "history: %s: merge does not terminate [step %d of a history in one interpreter]" % (st["tag"], hi_),
+                                           "input": {"history": [wire_step(s) for s in hists[hi][:hi_]], "index": hi_ - 1}, "finding": None})
+                else:
+                    out.notes.append("history: operation %r (not a merge) did not return within the deadline: %s" % (st["op"], json.dumps(wire_step(st))[:300]))
+    todo = [(hi, si) for hi, si in merges if hres[hi] is not None and not hists[hi][si].get("refused")]
+    descs = describe_steps([(hists[hi][si], hres[hi][si]) for hi, si in todo])
+    dmap = dict(zip(todo, descs))
+    elines = [d["r"].get("ents") if "r" in d else None for d in descs]
+    emodel = dict(zip(todo, drive(ctx, elines)))
+    single_of = {key: (r[0] if r else None) for key, r in zip(sample, sres)}
+    failed = []
+    for hi, si in merges:
+        if hres[hi] is None:
+            continue
+        st, r = hists[hi][si], hres[hi][si]
+        out.evaluations += 1
+        d = dmap.get((hi, si), {})
+        bad, in_domain = judge_merge(st, r, d)
+        canon = r.get("canon", "")
+        if st.get("refused"):
+            out.count("history.refused" if bad is None else "history.violations")
+            out.nontrivial.add(("h.refused", st["name"], si > 0))
+        elif not in_domain:
+            out.count("history.skipped_not_junk_free")
+        if bad:
+            failed.append((hi, si, bad))
+            continue
+        text = r.get("text")
+        if "fresh" in r and r["fresh"] != text:
+            out.disagreements.append({"op": "history.fresh-instance", "what": "merge_channels on the shared parser and merge_resources on a "
+                                      "parser created for the call differ", "step": wire_step(st), "index": si, "shared": text,
+                                      "fresh": r.get("fresh"), "fresh_exc": r.get("fresh_exc"),
+                                      "before": [wire_step(s) for s in hists[hi][max(0, si - 3):si]]})
+            continue
+        s1 = single_of.get((hi, si))
+        if s1 is not None:
+            out.count("history.fresh_interpreter_checked")
+            if s1.get("canon") != canon:
+                out.disagreements.append({"op": "history.fresh-interpreter", "what": "the same merge_channels call alone in a fresh interpreter "
+                                          "returns something else", "step": wire_step(st), "index": si, "in_history": canon[:400],
+                                          "alone": str(s1.get("canon"))[:400], "before": [wire_step(s) for s in hists[hi][max(0, si - 3):si]]})
+                continue
+        em = emodel.get((hi, si))
+        if em is not None and canon.startswith("ok ") and em != canon:
+            out.disagreements.append({"op": "merge.ents", "fmt": st["tag"], "texts": st["texts"], "impl": canon, "model": em, "domain": "history"})
+        if in_domain and not st.get("refused"):
+            kind = "single" if len(st["texts"]) == 1 else ("identical" if len(set(st["texts"])) == 1 else "several")
+            out.count("history.merge.%s" % kind)
+            prev = hists[hi][si - 1]["op"] if si else "start"
+            out.nontrivial.add(("h", st["tag"], kind, prev, text if kind == "several" else len(text) % 64))
+            if kind == "several" and prev not in ("merge", "start") and out.distribution.get("sampled.history", 0) < 2:
+                out.count("sampled.history")
+                out.samples.append({"fmt": st["tag"], "history_before": [wire_step(s) for s in hists[hi][max(0, si - 2):si]],
+                                    "versions": st["texts"], "merged": text})
+    # violations: a concrete failing history each (shrunk for the first ones), all counted
+    out.count("history.violations", len(failed))
+    for n, (hi, si, bad) in enumerate(failed[:H_MAX_VIOLATIONS]):
+        st, r = hists[hi][si], hres[hi][si]
+        steps = hists[hi][:si + 1]
+        if n < 2:
+            try:
+                steps = shrink_history(hists[hi], si, st)
+            except Exception:       # noqa: shrinking is a convenience
+                steps = hists[hi][:si + 1]
+        f = hformats().get(st.get("tag"))
+        vs = [[tuple(it) for it in v] for v in st.get("versions", [])]
+        out.violations.append({
+            "what": "history: %s: %s [step %d of %d operations in one interpreter; before it: %s]" % (
+                st.get("tag") or "select", bad, len(steps), len(steps), ", ".join(s["op"] for s in steps[-4:-1]) or "nothing"),
+            "input": {"history": [dict(wire_step(s), **({"versions": s["versions"], "tag": s["tag"]} if "versions" in s else {}),
+                                       **({"refused": True} if s.get("refused") else {})) for s in steps],
+                      "index": len(steps) - 1},
+            "output": r.get("text", r.get("canon")), "fresh_instance": r.get("fresh"),
+            "finding": CLASH_FINDING if (f is not None and root_attr_key_clash(f, vs)) else None})
+    # correspondence: the whole history through the state machine (MergeH.run over HistM.step)
+    if ctx.model_ok:
+        ok_h = [hi for hi in range(len(hists)) if hres[hi] is not None]
+        lines, wheres = [], []
+        for hi in ok_h:
+            l, w = hist_model_line(hists[hi])
+            lines.append(l)
+            wheres.append(w)
+        bad_steps = {(hi, si) for hi, si, _ in failed}
+        for hi, w, mo in zip(ok_h, wheres, C.run_driver_parallel(lines) if lines else []):
+            got = mo.split(" || ") if mo else []
+            if len(got) != len(w):
+                out.disagreements.append({"op": "c15.hist", "what": "model answered %d steps for %d" % (len(got), len(w)), "model": mo[:300]})
+                continue
+            for g, wh in zip(got, w):
+                if wh is None:
+                    continue
+                si, sub = wh
+                st, r = hists[hi][si], hres[hi][si]
+                out.evaluations += 1
+                if sub is not None:
+                    each = r.get("each") or []
+                    exp = each[sub] if sub < len(each) else "?"
+                    same = (g == exp) or (exp == "gp ?" and g != "gp none")
+                else:
+                    exp = r.get("canon", "")
+                    if st.get("fmt") in ("ftl", "android") and exp.startswith("ok "):
+                        exp = "err external"
+                    same = g == exp
+                if not same and (hi, si) not in bad_steps:
+                    out.disagreements.append({"op": "c15.hist", "index": si, "step": wire_step(st), "impl": exp[:400], "model": g[:400],
+                                              "before": [wire_step(s) for s in hists[hi][max(0, si - 3):si]]})
+                out.count("history.model_steps_compared")
+    return out
+
+
 def drive(ctx, lines):
     """run the non-None protocol lines through the driver, keep positions"""
     if not ctx.model_ok:
@@ -1063,7 +1585,17 @@ def replay(payload):
     byname = {type(f).__name__: f for f in FORMATS}
     for v in payload.get("violations", []):
         i = v["input"]
-        if "texts" in i:
+        if "history" in i:
+            steps = i["history"]
+            r = run_fresh([steps])[0]
+            k = i.get("index", len(steps) - 1)
+            if r is None:
+                res.append({"input": i, "oracle": "no answer within the deadline"})
+                continue
+            st = steps[k]
+            d = describe_steps([(st, r[k])])[0] if not st.get("refused") else {}
+            res.append({"input": i, "result": r[k].get("text", r[k].get("canon")), "oracle": judge_merge(st, r[k], d)[0]})
+        elif "texts" in i:
             f = byname[i["fmt"]]
             vs = [[tuple(it) for it in ver] for ver in i["versions"]]
             r = pool.pmap("impl.channels", "impl_merge", [[f.fmt, f.name, i["texts"]]], timeout=10.0)[0]
